@@ -326,12 +326,21 @@ def elementary_table_family(ctx, per_config):
             for order in range(1, 9):
                 for name, f, x, exact in (cases if per_config is None else rng.sample(cases, per_config)):
                     ctx.tried(('elementary', m, n, order, name, x))
+                    # a third of the objects are stepped through n = 0, 1, .. (a Taylor-coefficient loop over one object) up to the
+                    # order under test instead of being built for it
+                    loop = rng.random() < 0.33
                     try:
                         with warnings.catch_warnings():
                             warnings.simplefilter('ignore')
-                            v = float(nd.Derivative(f, n=n, method=m, order=order)(x))
+                            if loop:
+                                dobj = nd.Derivative(f, n=0, method=m, order=order)
+                                for k_ in sorted({0, max(n - 1, 0), n}):
+                                    dobj.n = k_
+                                    v = float(dobj(x))
+                            else:
+                                v = float(nd.Derivative(f, n=n, method=m, order=order)(x))
                     except Exception as ex:
-                        ctx.violation('Derivative raised %r' % ex, program=name, x=x, method=m, n=n, order=order)
+                        ctx.violation('Derivative raised %r' % ex, program=name, x=x, method=m, n=n, order=order, stepped_through_n=loop)
                         continue
                     e = abs(v - exact(n)) / max(abs(exact(n)), abs(exact(0)), 1e-300)
                     env = 30.0 * max(_ELEM['%s/%d/%d' % (m, n, order)], 1e-14)
@@ -339,7 +348,7 @@ def elementary_table_family(ctx, per_config):
                     if not e <= env:
                         ctx.violation('Derivative of an elementary function (default steps) lost accuracy: outside 30 x the calibrated worst '
                                       'relative error of (%s, n=%d, order=%d)' % (m, n, order), program=name, x=x, method=m, n=n, order=order,
-                                      got=v, exact=exact(n), relative_error=e, envelope=env)
+                                      got=v, exact=exact(n), relative_error=e, envelope=env, stepped_through_n=loop)
     ctx.notes.append('elementary table family: worst relative error / envelope = %.3g' % worst)
 
 
